@@ -34,12 +34,14 @@ def install(reg):
         params={"codebase": "Codebase", "lexer": "ext:Lexer", "root": "ext:Path", "path": "str", "cached_report": "Optional[Report]"},
         returns="SourceFileEntry",
         requires={"supported_language": "has_key(Languages.by_name, lexer.__class__.name)",
+                  "codebase_well_formed": "codebase_ok(codebase)",
                   "the_cache_is_another_codebase": "is_none(cached_report) or (cached_report.codebase is not codebase and "
                                                    "cached_report.codebase.files is not codebase.files)"},
         ensures={
             "analysed_unless_an_unchanged_cache_entry_exists":
                 "iff(called('_analyze_file'), not (not is_none(cached_report) and old(has_key(cached_report.codebase.files, rel_path)) and "
                 "old(cached_report.codebase.files[rel_path]._checksum) == call_result('calculate_checksum')))",
+            "codebase_stays_well_formed": "codebase_ok(codebase)",
             "entry_is_keyed_by_the_relative_path": "result.path == rel_path",
             "entry_carries_the_checksum_of_the_current_bytes": "result._checksum == call_result('calculate_checksum')",
             "entry_is_added_to_the_codebase": "called('Codebase.add_file')",
@@ -52,9 +54,6 @@ def install(reg):
                     "calculate_checksum": {"of_this_file": "arg0 == path"}},
         modifies=["codebase.files{}", "codebase.totals{}", "codebase.tree{}"], props=("C09",),
     )
-    reg.contract("codelimit.common.Codebase:Codebase.add_file", params={"entry": "SourceFileEntry"}, returns="None",
-                 modifies=["self.files{}", "self.totals{}", "self.tree{}"], assumed=True,
-                 note="summary: the effects on the codebase's dictionaries are checked in C07")
     reg.contract(
         CHK + "_handle_file_path", params={"path": "ext:Path", "check_result": "CheckResult", "excludes_spec": "ext:PathSpec"},
         returns="None", modifies=["check_result.hard_to_maintain", "check_result.unmaintainable", "check_result.file_list[]"],
@@ -70,7 +69,8 @@ def install_walk(reg):
         "codelimit.common.Codebase:Codebase.__init__", params={"root": "str"}, returns="None", assumed=True,
         modifies=["self.root", "self.tree", "self.files", "self.totals"],
         ensures={"root": "self.root == root", "fresh_files": "fresh(self.files) and len(self.files) == 0",
-                 "fresh_totals": "fresh(self.totals) and len(self.totals) == 0", "fresh_tree": "fresh(self.tree)"},
+                 "fresh_totals": "fresh(self.totals) and len(self.totals) == 0", "fresh_tree": "fresh(self.tree)",
+                 "well_formed": "codebase_ok(self)"},
         note="summary of the constructor: empty dictionaries of its own",
     )
     reg.contract(
@@ -78,11 +78,12 @@ def install_walk(reg):
         params={"path": "ext:Path", "cached_report": "Optional[Report]", "add_file_entry_callback": "any"}, returns="Codebase",
         fresh_result=True,
         loops={
-            0: dict(fingerprint="root, dirs, files in os.walk(path.absolute())", body_asserts={
+            0: dict(fingerprint="root, dirs, files in os.walk(path.absolute())", invariant={"codebase_well_formed": "codebase_ok(result)"},
+                    body_asserts={
                 "hidden_directories_are_pruned_in_place": "iter_trace_len() >= 1 and iter_trace_method(0) == 'slice-assign' and "
                                                           "forall(0, len(dirs), lambda k: not (dirs[k][0] == '.'))",
             }),
-            1: dict(fingerprint="file in files", body_asserts={
+            1: dict(fingerprint="file in files", invariant={"codebase_well_formed": "codebase_ok(result)"}, body_asserts={
                 "hidden_files_are_never_considered": "not (file[0] == '.')",
                 "excluded_files_are_never_analysed": "implies(iter_called('_scan_file'), not iter_call_result('is_excluded'))",
                 "exclusion_is_tested_for_every_candidate": "iter_called('is_excluded')",
